@@ -379,6 +379,8 @@ struct StreamEngine : Engine {
 					lit.pop_back();
 				if (!lit.empty() || i)
 					lit += r.chance(1, 6) ? "\t" : " ";
+				if (i && !lit.empty() && lit[0] != ' ' && lit[0] != '\t')
+					lit.insert(lit.begin(), r.chance(1, 6) ? '\t' : ' ');	/* behind the previous value */
 				s2 += lit;
 				std::string tok = inv::inv_value(r, giv);
 				for (int tries = 0; tries < 8 && (tok.empty() || tok[0] == '-' || tok == " "); tries++)
@@ -608,7 +610,9 @@ struct StreamEngine : Engine {
 		/* dround rounds an argument in the source zone and a stdin value after the conversion to UTC (met while
 		 * building this oracle; a matter of dround's own semantics, not of streams): with --from-zone the
 		 * reference is the value alone on a line in plain stdin mode */
-		bool via_stdin = base.argv[0] == "dround" && std::find(base.argv.begin(), base.argv.end(), "--from-zone") != base.argv.end();
+		/* (dadd likewise: `dadd --from-zone Europe/Berlin 2012-01-28T12:00:00 +100d' adds in zone time, the same
+		 * value on stdin is converted first; the two differ by the DST hour) */
+		bool via_stdin = base.argv[0] != "dconv" && std::find(base.argv.begin(), base.argv.end(), "--from-zone") != base.argv.end();
 		if (!via_stdin)
 			a.insert(a.begin() + (long)pos, tok);
 		std::string key;
